@@ -27,7 +27,9 @@ CHECKS["C03"] = dict(
           "_construct_hole_edge_indices satisfy Incidence.Spec: node_face and edge_face are exact transposes of face_node / "
           "face_edge, a boundary edge is [face, FILL], face_face lists each neighbour once per shared edge, hole edges are "
           "exactly the single-incidence edges. All three loops are instances of one proved fact about table-updating loops "
-          "(keyedFold_get). The model is tied to the code by a differential run (outputs identical, 48/48 in quick) and the "
+          "(keyedFold_get). pre_of_edges_build / pipeline_meets_spec compose C02 and C03: on EVERY manifold standard-form face table the "
+          "edge tables derived by the C02 model meet Pre (manifoldness is the only hypothesis left, a fact about the mesh), so the incidence "
+          "tables built from them satisfy the spec end to end. The model is tied to the code by a differential run (outputs identical, 48/48 in quick) and the "
           "same Lean predicate is evaluated on the implementation's output; dtype and _FillValue are run-time assertions."),
     note=_TB + "Modelled, not verified: Python dict/list/np.pad semantics, numba compilation of the edge_face loop; "
          "face_edge/n_nodes_per_face are inputs (their correctness is C02). File-supplied tables (MPAS) only when small enough.",
